@@ -60,9 +60,8 @@ Theorem SemB_step s e : 0 <= match e with EGrow n => n | _ => 0 end -> SemB s ->
 Proof.
   intros Hn H. destruct e; unfold step; cbn [fst]; try exact H.
   - unfold do_apply.
-    destruct ((match slot with Some b => b | None => putlocks (with_sigs s []) end) &&
-              (LaxSem.value (sem (with_sigs s [])) =? 0)); [exact H|].
-    destruct (negb (pstate (with_sigs s []) =? 0)); [exact H|]. cbn [fst].
+    destruct (negb (pstate (with_sigs s []) =? 0)); [exact H|].
+    destruct ((match slot with Some b => b | None => putlocks (with_sigs s []) end) && (LaxSem.value (sem (with_sigs s [])) =? 0)); [exact H|]. cbn [fst].
     destruct (match slot with Some b => b | None => putlocks (with_sigs s []) end); [|exact H].
     unfold SemB in *. cbn [sem nprocs add_job with_sem with_sigs]. unfold sstep', sstep.
     destruct (0 <? LaxSem.value (sem s)); cbn [LaxSem.bound]; exact H.
